@@ -36,11 +36,21 @@ func c15(c *Ctx) {
 	r.Floor("R4.trailing", 1)
 
 	// ---- R1 encoder: functions in the module calling leb128.EncodeUint32
+	// (the standard library's uvarint is the same encoding: binary.AppendUvarint(empty buffer, n))
 	encs := p.CallersOf(lebEncode32)
+	for fn, cs := range p.CallersOf("encoding/binary.AppendUvarint") {
+		if fn.Pkg == p.SSAPkg("portalwire") {
+			encs[fn] = append(encs[fn], cs...)
+		}
+	}
 	for _, fn := range core.SortedFuncs(encs) {
 		for _, call := range encs[fn] {
 			name := core.FuncName(fn)
 			arg := call.Common().Args[0]
+			isStd := core.CalleeID(call) == "encoding/binary.AppendUvarint"
+			if isStd {
+				arg = call.Common().Args[1]
+			}
 			// operand must be uint32(len(param))
 			var item ssa.Value
 			okOperand := false
@@ -50,6 +60,22 @@ func c15(c *Ctx) {
 						okOperand = true
 					}
 				}
+				// uint64(uint32(len(item))) / uint64(len(item)) for the 64-bit uvarint encoder
+				if bt, ok := cv.Type().Underlying().(*types.Basic); ok && bt.Kind() == types.Uint64 && isStd {
+					inner := cv.X
+					if c2, ok := inner.(*ssa.Convert); ok {
+						if b2, ok := c2.Type().Underlying().(*types.Basic); ok && b2.Kind() == types.Uint32 {
+							inner = c2.X
+						}
+					}
+					if core.IsLenOf(inner, func(v ssa.Value) bool { item = v; return true }) {
+						okOperand = true
+					}
+				}
+			}
+			if isStd && okOperand && !core.IsEmptySlice(call.Common().Args[0]) {
+				// the prefix must start the frame: appended to an empty buffer
+				okOperand = false
 			}
 			r.Check(okOperand, "R1.encoder", name+" prefix-operand", p.Pos(call.Pos()),
 				"length prefix is uint32(len(item))", "the operand of the LEB128 encoder is not uint32(len(item))")
